@@ -232,6 +232,7 @@ class Rt:
         self.LiquidError = LiquidError
         self.mon = FrameMonitor().install()
         self.reported: set[str] = set()
+        self.key_counts: dict[str, int] = {}
 
     def close(self) -> None:
         self.mon.flush_counters(self.ctx)
@@ -695,13 +696,14 @@ def run_pair(rt: Rt, seed: str, j: int, tier: str) -> None:
     if v["o2"]:
         report_o2(rt, chk, v, base)
     # fault injection on variant 1 (harness-owned context)
-    every = 4 if tier == "quick" else 2
-    if j % every == 0:
+    if j % 4 == 0:
         fault_sweep(rt, pair.env_kind, srcs["v1"], parts, pair.data, mode,
-                    cap=16 if tier == "quick" else 80, both=tier != "quick", j=j)
+                    cap=16 if tier == "quick" else 32, both=tier != "quick", j=j)
 
 
-def _minimise_pair(chk: PairCheck, which: str) -> tuple[list, list, list, bool]:
+def _minimise_pair(chk: PairCheck, which: str, full: bool = True) -> tuple[list, list, list, bool]:
+    """Reduce (prefix, body, wrappers) while the violation persists.  With full=False only
+    the cheap attribution steps are done (enough to name the mechanism)."""
     pair = chk.pair
     suffix = True
 
@@ -714,16 +716,33 @@ def _minimise_pair(chk: PairCheck, which: str) -> tuple[list, list, list, bool]:
             return False
 
     prefix, body, wraps = list(pair.prefix), list(pair.body), list(pair.wraps)
-    for wi in range(len(wraps) - 1, -1, -1):
-        cand = wraps[:wi] + wraps[wi + 1:]
-        if failing(prefix, body, cand):
-            wraps = cand
-    if prefix and failing([], body, wraps):
-        prefix = []
-    elif len(prefix) > 1:
-        prefix = ddmin(prefix, lambda c: failing(c, body, wraps), max_calls=60)
-        if len(prefix) == 1 and failing([], body, wraps):
+    # cheap attribution first: a single wrapper or a single prefix statement that suffices
+    single = None
+    if which == "o1":
+        for w in wraps:
+            if failing([], body, [w]):
+                single = ([], [w])
+                break
+        if single is None and not wraps:
+            for st in prefix:
+                if failing([st], body, []):
+                    single = ([st], [])
+                    break
+    if single is not None:
+        prefix, wraps = single
+    else:
+        for wi in range(len(wraps) - 1, -1, -1):
+            cand = wraps[:wi] + wraps[wi + 1:]
+            if failing(prefix, body, cand):
+                wraps = cand
+        if prefix and failing([], body, wraps):
             prefix = []
+        elif len(prefix) > 1:
+            prefix = ddmin(prefix, lambda c: failing(c, body, wraps), max_calls=60)
+            if len(prefix) == 1 and failing([], body, wraps):
+                prefix = []
+    if not full and which == "o1":
+        return prefix, body, wraps, suffix
     if len(body) > 1:
         body = ddmin(body, lambda c: failing(prefix, c, wraps), max_calls=80)
     if which == "o1":
@@ -739,11 +758,21 @@ def _minimise_pair(chk: PairCheck, which: str) -> tuple[list, list, list, bool]:
     return prefix, body, wraps, suffix
 
 
+def _o1_key(pair: Pair, prefix: list, wraps: list) -> str:
+    leaks = sorted({PREFIX_LEAK[st["kind"]] for st in prefix} | {PREFIX_LEAK["wrap:" + w["kind"]] for w in wraps})
+    return f"O1:{pair.construct}:{'+'.join(leaks) if leaks else 'differs-from-bare-caller'}"
+
+
 def report_o1(rt: Rt, chk: PairCheck, v: dict[str, Any], base: dict[str, Any]) -> None:
     pair = chk.pair
-    prefix, body, wraps, suffix = _minimise_pair(chk, "o1")
-    leaks = sorted({PREFIX_LEAK[st["kind"]] for st in prefix} | {PREFIX_LEAK["wrap:" + w["kind"]] for w in wraps})
-    key = f"O1:{pair.construct}:{'+'.join(leaks) if leaks else 'differs-from-bare-caller'}"
+    # name the mechanism cheaply; spend the full minimisation only on the first few witnesses
+    prefix, body, wraps, suffix = _minimise_pair(chk, "o1", full=False)
+    key = _o1_key(pair, prefix, wraps)
+    seen = rt.key_counts.get(key, 0)
+    rt.key_counts[key] = seen + 1
+    if seen < 3:
+        prefix, body, wraps, suffix = _minimise_pair(chk, "o1", full=True)
+        key = _o1_key(pair, prefix, wraps)
     srcs, parts = chk.sources(prefix, body, wraps, suffix)
     srcs.pop("v1_without_tag", None)
     v2 = chk.evaluate(srcs, parts, report_frames=False)
@@ -1198,7 +1227,7 @@ def run_frame(rt: Rt, seed: str, j: int, tier: str) -> None:
     if g.error_leaf:
         ctx.seen("error_leaves", g.error_leaf)
     if sub in (0, 2):
-        fault_sweep(rt, g.env_kind, src, parts, data, mode, cap=24 if tier == "quick" else 120,
+        fault_sweep(rt, g.env_kind, src, parts, data, mode, cap=24 if tier == "quick" else 60,
                     both=tier != "quick", j=j)
 
 
@@ -1355,7 +1384,7 @@ KINDS: dict[str, Callable[[Rt, str, int, str], None]] = {
     "pairs": run_pair, "o4": run_o4, "frame": run_frame, "o6": run_o6, "gen": run_gen,
 }
 PER = {  # cases per shard (quick, thorough)
-    "pairs": (260, 5200), "o4": (300, 6000), "frame": (150, 3000), "o6": (200, 4000), "gen": (80, 1600),
+    "pairs": (260, 2600), "o4": (300, 6000), "frame": (150, 2000), "o6": (200, 4000), "gen": (80, 1600),
 }
 NSHARDS = {"pairs": 8, "o4": 2, "frame": 3, "o6": 1, "gen": 1}
 
